@@ -247,6 +247,30 @@ func fStep(prof FProfile) func(t *rapid.T, w *world.World) world.Action {
 				return world.Action{Kind: world.KConsumerTx, Chain: id, Sender: rapid.SampledFrom([]string{"cuser1", "cuser2"}).Draw(t, "cuser"), Amount: 1, Fee: rapid.SampledFrom([]string{"1stake", "1000003stake", "999999999999stake", "7stake"}).Draw(t, "fee")}
 			}
 		case "timeout":
+			// macro: let an undelivered provider packet time out (the receiver must pass the timeout time first)
+			for _, id := range f.Order {
+				p := f.Paths[id]
+				pending := 0
+				for _, pr := range p.P2C {
+					if !pr.Delivered && !pr.TimedOut && pr.Packet.SourcePort == "provider" {
+						pending++
+					}
+				}
+				if pending > 0 && !p.C.Halted && rapid.IntRange(0, 2).Draw(t, "tomacro") > 0 {
+					to := int64(w.Cfg.Provider.CcvTimeout) + 5e9
+					w.Agenda = append(w.Agenda,
+						world.Action{Kind: world.KBlock, Chain: id, Dt: 1e9},
+						world.Action{Kind: world.KBlock, Chain: id, Dt: 1e9},
+						world.Action{Kind: world.KRelay, Consumer: id, Relay: &world.RelaySpec{Op: "timeout", Dir: "p2c", K: rapid.IntRange(1, 3).Draw(t, "tok")}},
+						world.Action{Kind: world.KBlock, Dt: 2e9})
+					if pending > 1 && rapid.Bool().Draw(t, "second-timeout") {
+						w.Agenda = append(w.Agenda,
+							world.Action{Kind: world.KRelay, Consumer: id, Relay: &world.RelaySpec{Op: "timeout", Dir: "p2c", K: 2}},
+							world.Action{Kind: world.KBlock, Dt: 2e9})
+					}
+					return world.Action{Kind: world.KBlock, Dt: to}
+				}
+			}
 			if len(f.Order) > 0 {
 				id := rapid.SampledFrom(f.Order).Draw(t, "tochain")
 				return world.Action{Kind: world.KRelay, Consumer: id, Relay: &world.RelaySpec{Op: "timeout", Dir: rapid.SampledFrom([]string{"p2c", "p2c", "c2p"}).Draw(t, "todir"), K: rapid.IntRange(1, 3).Draw(t, "tok")}}
@@ -263,7 +287,7 @@ func fStep(prof FProfile) func(t *rapid.T, w *world.World) world.Action {
 				return world.Action{Kind: world.KUnjail, Val: rapid.SampledFrom(jailed).Draw(t, "ujv")}
 			}
 		case "bigdt":
-			return world.Action{Kind: world.KBlock, Dt: int64(rapid.SampledFrom([]int{400, 3000, 40000}).Draw(t, "bigdt")) * 1e9}
+			return world.Action{Kind: world.KBlock, Dt: int64(rapid.SampledFrom([]int{30, 70, 210, 400}).Draw(t, "bigdt")) * 1e9}
 		}
 		a := w.GenBlock(t, prof.AbsentP)
 		if a.Dt > 20e9 && !prof.Remove {
